@@ -304,3 +304,43 @@ for _n in ("ValueError", "KeyError", "RuntimeError", "NotImplementedError", "Ass
             return BuiltinExc(n, tuple(args))
         return h
     EXT["builtins." + _n] = _mk(_n)
+
+
+def _lex_le(a, b):
+    """a <= b lexicographically for ints / tuples of ints (interpreter values)"""
+    if isinstance(a, tuple) and isinstance(b, tuple):
+        if not a:
+            return z3.BoolVal(True)
+        a0, b0 = to_z3(a[0], Int), to_z3(b[0], Int)
+        return OR(a0 < b0, AND(a0 == b0, _lex_le(a[1:], b[1:])))
+    return to_z3(a, Int) <= to_z3(b, Int)
+
+
+@ext("model.sorted")
+def _model_sorted(I, args, kw):
+    """sorted(L, key=f) of a symbolic list: a permutation of L (index bijection pi) in ascending key order"""
+    L = args[0]
+    if not isinstance(L, SymList):
+        raise Unsupported("sorted() of this value")
+    ctx = I.ctx
+    pi = ctx.fresh_fun("sort_pi", Int, Int)
+    inv = ctx.fresh_fun("sort_inv", Int, Int)
+    j, k = z3.Ints("j!so k!so")
+    n = L.n
+    ctx.assume(z3.ForAll([j], z3.Implies(AND(j >= 0, j < n), AND(pi(j) >= 0, pi(j) < n, inv(pi(j)) == j))))
+    ctx.assume(z3.ForAll([j], z3.Implies(AND(j >= 0, j < n), AND(inv(j) >= 0, inv(j) < n, pi(inv(j)) == j))))
+    S = SymList(n, lambda i: L.get(pi(i)), elem_sort=L.elem_sort)
+    key = kw.get("key")
+
+    def keyof(x):
+        if key is None:
+            return x
+        I.pure += 1
+        nb = len(I.pure_guards)
+        try:
+            return I.call(key, [x], {})
+        finally:
+            del I.pure_guards[nb:]  # a raising key is reported by the loop that consumes the list
+            I.pure -= 1
+    ctx.assume(z3.ForAll([j, k], z3.Implies(AND(j >= 0, j < k, k < n), _lex_le(keyof(S.get(j)), keyof(S.get(k))))))
+    return S
